@@ -14,7 +14,8 @@ PVals == {R(0), R(1), Frac(3, 2), R(2), R(3), NaN}
 PPairs == PVals \X PVals
 PairVectors(u) == {<<x>> : x \in PPairs} \cup {<<x, y>> : x \in PPairs, y \in PPairs}
                   \cup {<<x, y, z>> : x \in {q \in PPairs : q[1] # NaN}, y \in {q \in PPairs : q[2] # R(3)}, z \in {<<R(1), R(2)>>, <<R(2), R(2)>>, <<NaN, R(1)>>, <<R(3), R(0)>>}}
-QVals == {R(0), R(1), R(2), R(3), NaN}
+\* ... and a value one millionth above the first threshold (not ON it: counts as above it for every bin type)
+QVals == {R(0), R(1), R(2), R(3), NaN, Frac(1000001, 1000000)}
 QuickVectors(u) == {<<x>> : x \in QVals \X QVals} \cup {<<x, y>> : x \in QVals \X QVals, y \in QVals \X QVals}
 Cases(u) == IF Kind = "pairsquick" THEN {[kind |-> "pairs", T |-> <<0, 0, 0, 0>>, v |-> v, bt |-> bt] : v \in QuickVectors(u), bt \in BinTypes}
             ELSE IF Kind = "table" THEN {[kind |-> "table", T |-> T, v |-> <<>>, bt |-> "above"] : T \in Tables(u)}
